@@ -24,7 +24,7 @@ RULE = ('weights: strictly monotonic sources (ascending and descending, 2..7 nod
         'against the Lean weights, numpy.interp and a linear profile; bpchsigma: GEOS-Chem interpSigma on generated 47-level '
         'files incl. thin surface layers outside the source midpoints; non-trivial = at least one '
         'target strictly between two nodes (weights) / at least one target layer overlapping two source '
-        'layers (sigma); 1-D coordinates of magnitude 2^17..2^30 with a target of the same length shifted by half a step; the weights applied through interpvars along the first / second dimension of a 4-D variable; interpSigma targets that are a subset of the source edges (layers of unequal thickness merged)')
+        'layers (sigma); 1-D coordinates of magnitude 2^17..2^30 with a target of the same length shifted by half a step; the weights applied through interpvars along the first / second dimension of a 4-D variable; interpSigma targets that are a subset of the source edges (layers of unequal thickness merged); a numeric fill_value passed on (targets inside the source range); interpDimension with coordkey= naming another 1-D variable next to a variable named like the dimension; GEOS-Chem interpSigma on files with a reduced and a full layer dimension, target layers beyond the reduced levels')
 ASSUMPTIONS = ['scipy.interpolate.interp1d linear evaluation and numpy.interp are exact on the generated '
                'dyadic grids (power-of-two source spacings)',
                'theorems are over Q; IEEE rounding on non-dyadic grids is outside the proof']
@@ -61,8 +61,11 @@ def _weights_case(rng):
     if rng.random() < 0.4:
         xs = xs[::-1]
     a, b = rng.randint(-5, 5), rng.randint(-5, 5)
-    return dict(kind='weights', extrapolate=rng.random() < 0.35, xs=[lib.show_rat(v) for v in xs],
-                nxs=[lib.show_rat(v) for v in targets], a=a, b=b)
+    # fillv: a numeric fill_value is passed on (it may only matter for targets outside the source range: those columns
+    # are then left out of the comparison)
+    fillv = rng.choice([None, None, None, 'nan', '0'])
+    return dict(kind='weights', extrapolate=(rng.random() < 0.35) and not fillv, xs=[lib.show_rat(v) for v in xs],
+                nxs=[lib.show_rat(v) for v in targets], a=a, b=b, fillv=fillv)
 
 
 def _sigma_edges(rng, n):
@@ -139,7 +142,12 @@ def _interpdim_case(rng):
         sh = Fraction(1, 2) * (1 if rng.random() < 0.5 else -1)
         tg = [[v + sh for v in base2]]
     a, b = rng.randint(-4, 4), rng.randint(-5, 5)
-    return dict(kind='interpdim', nd=nd, extrapolate=rng.random() < 0.3, cube=rng.choice([None, 'square', 'other']),
+    allin = all(min(srcs[k if nd else 0]) <= v <= max(srcs[k if nd else 0]) for k in range(len(tg)) for v in tg[k])
+    # ckey: the coordinate is named with coordkey= and a variable called like the dimension (a level number) exists too
+    ckey = (not nd) and rng.random() < 0.35
+    fillv = rng.choice([None, 'nan', '0']) if allin else None
+    return dict(kind='interpdim', nd=nd, extrapolate=(rng.random() < 0.3) and not fillv, cube=rng.choice([None, 'square', 'other']),
+                ckey=ckey, fillv=fillv,
                 srcs=[[lib.show_rat(v) for v in c] for c in srcs], tgts=[[lib.show_rat(v) for v in c] for c in tg],
                 a=a, b=b, data=[[rng.randint(-9, 9) for _ in range(nz)] for _ in range(ncol)])
 
@@ -149,6 +157,9 @@ def _bpchsigma_case(rng):
     edges inside those layers, half of the time with a thin surface layer whose midpoint lies outside the source
     midpoints (edge value, never extrapolation)"""
     return dict(kind='bpchsigma', nz=rng.choice([2, 3]), nlay=rng.randint(1, 3), thin=rng.random() < 0.6,
+                # full: a second tracer on all 47 levels (linear in sigma) and one more target layer whose midpoint lies
+                # between the top reduced level and the next one
+                full=rng.random() < 0.6, fa=rng.randint(1, 9), fb=rng.randint(-5, 5),
                 frac=[rng.randint(1, 15) for _ in range(3)], vgtop=rng.choice([5000., 10000., 1.]),
                 data=[rng.randint(-9, 9) for _ in range(3)], seed=rng.randrange(1 << 30))
 
@@ -209,7 +220,15 @@ def impl(case):
         if case['kind'] == 'weights':
             xs = np.array([float(v) for v in _f(case['xs'])])
             nxs = np.array([float(v) for v in _f(case['nxs'])])
-            w = getinterpweights(xs, nxs, extrapolate=case['extrapolate'])
+            if case.get('fillv'):
+                w = getinterpweights(xs, nxs, extrapolate=case['extrapolate'], fill_value=float(case['fillv']))
+                inside = (nxs >= xs.min()) & (nxs <= xs.max())
+                if not np.isfinite(w[:, inside]).all():
+                    return dict(err='weights of targets inside the source range are not finite with fill_value=%s' % case['fillv'])
+                w = np.where(inside[None, :], w, 0.)         # columns outside: not compared (see agree / oracle)
+                w[0, ~inside] = 1.
+            else:
+                w = getinterpweights(xs, nxs, extrapolate=case['extrapolate'])
             # the same weights applied with interpvars along the first or the second dimension of a 4-D variable (two or
             # three axes behind the interpolated one; square and non-square horizontal grids), against a plain contraction
             res = dict(cols=[[lib.show_rat(v) for v in w[:, j]] for j in range(w.shape[1])])
@@ -240,7 +259,11 @@ def impl(case):
                 res['ivbad'] = 'interpvars raised %s %s' % (type(e).__name__, str(e)[:80])
             return res
         if case['kind'] == 'interpdim':
-            return _interpdim(case)
+            r = _interpdim(case)
+            for k in ('A', 'LIN', 'coord', 'levelno'):
+                if k in r and not np.isfinite(np.asarray(r[k], dtype='d')).all():
+                    return dict(err='interpDimension gives non-finite values in %s: %s' % (k, r[k]))
+            return r
         if case['kind'] == 'bpchsigma':
             return _bpchsigma(case)
         src = np.array([float(v) for v in _f(case['src'])], dtype='f')
@@ -291,6 +314,12 @@ def _apply(case, src, dst):
                 nlay=len(o.dimensions['LAY']), vglvls=[lib.show_rat(x) for x in o.VGLVLS])
 
 
+def _levelno(xs):
+    """the values of a variable named like the dimension that is not the coordinate (an altitude next to the pressure
+    that is interpolated on): linear in the coordinate, so that it has to come out linear in the targets"""
+    return [3 * Fraction(x) + 7 for x in xs]
+
+
 def _interpdim(case):
     import PseudoNetCDF as pnc
     srcs = [[float(Fraction(v)) for v in c] for c in case['srcs']]
@@ -300,6 +329,7 @@ def _interpdim(case):
     f.createDimension('z', nz)
     f.createDimension('x', ncol)
     data = np.array(case['data'], dtype='d').T                  # (z, x)
+    kwf = dict(fill_value=float(case['fillv'])) if case.get('fillv') else {}
     lin = np.array([[case['a'] * float(Fraction(v)) + case['b'] for v in c] for c in case['srcs']], dtype='d').T
     if case['nd']:
         zc = f.createVariable('ZH', 'd', ('z', 'x'))
@@ -314,10 +344,14 @@ def _interpdim(case):
         g.createDimension('x', ncol)
         tv = g.createVariable('ZH', 'd', ('z', 'x'))
         tv[:] = np.array(tgts).T
-        o = f.interpDimension('z', tv, coordkey='ZH', extrapolate=case['extrapolate'])
+        o = f.interpDimension('z', tv, coordkey='ZH', extrapolate=case['extrapolate'], **kwf)
     else:
-        zc = f.createVariable('z', 'd', ('z',))
+        zc = f.createVariable('P' if case.get('ckey') else 'z', 'd', ('z',))
         zc[:] = srcs[0]
+        if case.get('ckey'):
+            lv = f.createVariable('z', 'd', ('z',))
+            lv[:] = [float(x) for x in _levelno(case['srcs'][0])]
+            kwf['coordkey'] = 'P'
         for k, arr in (('A', data), ('LIN', lin)):
             v = f.createVariable(k, 'd', ('z', 'x'))
             v[:] = arr
@@ -330,17 +364,22 @@ def _interpdim(case):
             f.createDimension('y', ny)
             b3 = f.createVariable('B3', 'd', ('z', 'x', 'y'))
             b3[:] = lin[:, :, None] + 100. * np.arange(ny)[None, None, :] + 1000. * np.arange(ncol)[None, :, None]
-        o = f.interpDimension('z', np.array(tgts[0]), extrapolate=case['extrapolate'])
+        o = f.interpDimension('z', np.array(tgts[0]), extrapolate=case['extrapolate'], **kwf)
+        ck = 'P' if case.get('ckey') else 'z'
+        extra = dict(levelno=np.asarray(o.variables['z'][:]).tolist()) if case.get('ckey') else {}
         if ny:
             got3 = np.asarray(o.variables['B3'][:])
             lin_out = np.asarray(o.variables['LIN'][:])
             want3 = lin_out[:, :, None] + 100. * np.arange(ny)[None, None, :] + 1000. * np.arange(ncol)[None, :, None]
             b3bad = None if (got3.shape == want3.shape and np.allclose(got3, want3, rtol=0, atol=1e-6)) else \
                 'shape %s, expected %s%s' % (got3.shape, want3.shape, '' if got3.shape != want3.shape else ' (values differ)')
-            return dict(A=np.asarray(o.variables['A'][:]).T.tolist(), LIN=lin_out.T.tolist(), coord=np.asarray(o.variables['z'][:]).T.tolist(),
-                        W=np.asarray(o.variables['W'][:]).tolist(), nz=len(o.dimensions['z']), b3bad=b3bad)
+            return dict(A=np.asarray(o.variables['A'][:]).T.tolist(), LIN=lin_out.T.tolist(), coord=np.asarray(o.variables[ck][:]).T.tolist(),
+                        W=np.asarray(o.variables['W'][:]).tolist(), nz=len(o.dimensions['z']), b3bad=b3bad, **extra)
+        return dict(A=np.asarray(o.variables['A'][:]).T.tolist(), LIN=np.asarray(o.variables['LIN'][:]).T.tolist(),
+                    coord=np.asarray(o.variables[ck][:]).T.tolist(),
+                    W=np.asarray(o.variables['W'][:]).tolist(), nz=len(o.dimensions['z']), **extra)
     return dict(A=np.asarray(o.variables['A'][:]).T.tolist(), LIN=np.asarray(o.variables['LIN'][:]).T.tolist(),
-                coord=np.asarray(o.variables['ZH' if case['nd'] else 'z'][:]).T.tolist(),
+                coord=np.asarray(o.variables['ZH'][:]).T.tolist(),
                 W=np.asarray(o.variables['W'][:]).tolist(), nz=len(o.dimensions['z']))
 
 
@@ -371,6 +410,16 @@ def _bpchsigma(case):
             my = (etai - case['vgtop']) / (etai[0] - case['vgtop'])
             zs = (my[:-1] + my[1:]) / 2.
             nz = case['nz']
+            if case.get('full'):
+                # the same file again with a second tracer on every level, linear in the layer midpoints
+                blk2 = dict(cat='IJ-AVG-$', off=0, nz=len(zs), start=[1, 1, 1])
+                blk2.update(dict(zip(('tid', 'name', 'scale', 'unit', 'carbon'), B.TRACERS[0][1])))
+                fdata = [float(np.float32(case['fa'] * z + case['fb'])) for z in zs]
+                c.update(blocks=[blk, blk2], data=[[c['data'][0][0], [camx.f32bits(x) for x in fdata]]])
+                del f
+                p = os.path.join(d, 'b.bpch')
+                open(p, 'wb').write(B.encode(c))
+                f = bpch1(p, noscale=True)
             # target edges between sigma = 1 and the midpoint of source layer nz
             span = 1.0 - zs[nz - 1]
             us = sorted({x / 16.0 for x in case['frac'][:case['nlay']]})
@@ -378,12 +427,19 @@ def _bpchsigma(case):
             edges = sorted(set(edges), reverse=True)
             if len(edges) < 2:
                 edges = [1.0, 1.0 - span]
+            if case.get('full'):
+                edges.append(zs[nz - 1] + zs[nz] - edges[-1])
             vg = np.array(edges, dtype='d')
             o = f.interpSigma(vg, vgtop=case['vgtop'])
-            key = [k for k in o.variables if k.startswith('IJ-AVG-$')][0]
+            key = 'IJ-AVG-$_' + blk['name']
             got = np.asarray(o.variables[key][0, :, 0, 0], dtype='d').tolist()
             nzs = ((vg[:-1] + vg[1:]) / 2.).tolist()
-            return dict(got=got, zs=zs.tolist(), nzs=nzs, data=[float(x) for x in case['data'][:nz]])
+            if case.get('full'):
+                # both tracers on every target layer: the reduced one keeps its top value above its top
+                gotf = np.asarray(o.variables['IJ-AVG-$_' + blk2['name']][0, :, 0, 0], dtype='d').tolist()
+                return dict(got=got, zs=zs[:nz].tolist(), nzs=nzs, data=[float(x) for x in case['data'][:nz]],
+                            full=gotf, fzs=zs.tolist(), fnzs=nzs, fdata=fdata)
+            return dict(got=got, zs=zs[:nz].tolist(), nzs=nzs, data=[float(x) for x in case['data'][:nz]])
     finally:
         shutil.rmtree(d, True)
 
@@ -434,9 +490,24 @@ def agree(case, out, res):
         for a, b in zip(mv, res['got']):
             if abs(a - b) > 1e-6 * max(1.0, abs(a)):
                 return 'bpch interpSigma value model=%r impl=%r (source midpoints %s, targets %s)' % (a, b, res['zs'][:3], res['nzs'])
+        if 'full' in res:
+            sr = lambda xs: lib.show_list([lib.show_rat(Fraction(x)) for x in xs])
+            o = lib.run_model(['c17 linear 0 %s %s %s' % (sr(res['fzs']), sr(res['fnzs']), sr(res['fdata']))])[0]
+            if not o.startswith('ok '):
+                return 'model %s' % o[:40]
+            mf = [float(Fraction(x)) for x in o[3:].split(',')]
+            if len(mf) != len(res['full']) or any(abs(a - b) > 1e-6 * max(1.0, abs(a)) for a, b in zip(mf, res['full'])):
+                return 'bpch interpSigma, tracer on all levels next to a reduced one: model=%s impl=%s' % (mf, res['full'])
         return None
     if case['kind'] == 'apply' and case.get('itype') == 'linear' and len(case['src']) < 3:
         return None         # a single source layer: interp1d needs two nodes (the library raises)
+    if case['kind'] == 'weights' and case.get('fillv'):
+        xs, nxs = _f(case['xs']), _f(case['nxs'])
+        mcols = toks[1].split(';')
+        for j, t in enumerate(nxs):
+            if min(xs) <= t <= max(xs) and mcols[j] != lib.show_list(res['cols'][j]):
+                return 'weights with fill_value=%s for the inside target %s: model=%s impl=%s' % (case['fillv'], t, mcols[j], res['cols'][j])
+        return None
     if case['kind'] in ('weights', 'sigma'):
         mine = lib.show_rows(res['cols'])
         return None if toks[1] == mine else 'matrix model=%s impl=%s' % (toks[1], mine)
@@ -467,7 +538,19 @@ def _agree_interpdim(case, res):
                      [lib.show_rat(case['a'] * Fraction(v) + case['b']) for v in case['srcs'][k]]):
             lines.append('c17 linear %d %s %s %s' % (1 if case['extrapolate'] else 0, lib.show_list(case['srcs'][k]),
                                                      lib.show_list(t), lib.show_list(data)))
+    if case.get('ckey'):
+        lines.append('c17 linear %d %s %s %s' % (1 if case['extrapolate'] else 0, lib.show_list(case['srcs'][0]),
+                                                 lib.show_list(case['tgts'][0]),
+                                                 lib.show_list([lib.show_rat(x) for x in _levelno(case['srcs'][0])])))
     outs = lib.run_model(lines)
+    if case.get('ckey'):
+        o = outs[-1]
+        if not o.startswith('ok '):
+            return 'model %s' % o[:40]
+        mv = [Fraction(x) for x in o[3:].split(',')]
+        got = res.get('levelno', [])
+        if len(mv) != len(got) or any(Fraction(g) != m for g, m in zip(got, mv)):
+            return 'interpDimension with coordkey: the variable named like the dimension: model %s impl %s' % ([str(x) for x in mv], got)
     for k in range(ncol):
         for j, key in enumerate(('A', 'LIN')):
             o = outs[2 * k + j]
@@ -500,6 +583,8 @@ def _oracle_interpdim(case, res):
             cl = tv if (inside or case['extrapolate']) else (lo if tv < lo else hi)
             if Fraction(coord[j]) != cl:
                 return 'interpolated coordinate of column %d is %s at target %s' % (k, coord[j], tv)
+            if case.get('ckey') and k == 0 and Fraction(res['levelno'][j]) != 3 * cl + 7:
+                return 'interpDimension with coordkey: the variable named like the dimension (3*coordinate+7) is %s at target %s' % (res['levelno'][j], tv)
             if Fraction(res['LIN'][k][j]) != case['a'] * cl + case['b']:
                 return 'linear profile %d*z%+d not reproduced in column %d at %s: %s' % (case['a'], case['b'], k, tv, res['LIN'][k][j])
             # plain numpy on the column
@@ -522,6 +607,12 @@ def oracle(case, res):
         lo, hi = min(res['data']), max(res['data'])
         if any(x < lo - 1e-9 or x > hi + 1e-9 for x in res['got']):
             return 'interpolated values %s leave the range of the source values %s without extrapolation' % (res['got'], res['data'])
+        if 'full' in res:
+            # linear in the layer midpoints: reproduced at every target midpoint inside them
+            for t, x in zip(res['fnzs'], res['full']):
+                want = case['fa'] * t + case['fb']
+                if min(res['fzs']) <= t <= max(res['fzs']) and abs(x - want) > 1e-5 * max(1.0, abs(want)):
+                    return 'tracer on all levels, linear in sigma (%d*s%+d), next to a reduced one: %r at midpoint %r, expected %r' % (case['fa'], case['fb'], x, t, want)
         return None
     if case['kind'] == 'weights':
         if res.get('ivbad'):
@@ -531,6 +622,8 @@ def oracle(case, res):
         lo, hi = min(xs), max(xs)
         for t, colw in zip(nxs, res['cols']):
             w = _f(colw)
+            if case.get('fillv') and not lo <= t <= hi:
+                continue
             if sum(w) != 1:
                 return 'weights for target %s sum to %s' % (t, sum(w))
             if not case['extrapolate'] and min(w) < 0:
